@@ -1,4 +1,4 @@
-CONSTANTS Universe <- UnivDef MaxKeys = 3 Mods = {0, 1, 2, 5} Depth = 4 Alphabet = "counter" Kinds = {"counter"}
+CONSTANTS Universe <- UnivSmall MaxKeys = 3 Mods = {0, 1, 2, 5} Depth = 4 Alphabet = "counter" Kinds = {"counter"}
 SPECIFICATION Spec
 INVARIANT HashRefines
 INVARIANT MemberLemma
